@@ -127,7 +127,7 @@ func VH_C07_AccountPaths_sym() {
 	}
 	for _, op := range vfsLog {
 		vAssert("account_file_in_accounts_dir", c07Within("/cfg/Users", op.name))
-		if op.kind == "rename" {
+		if op.kind == "rename" || op.kind == "failed:rename" {
 			vAssert("account_rename_target_in_accounts_dir", c07Within("/cfg/Users", op.to))
 		}
 	}
